@@ -154,6 +154,7 @@ class Run:
     def violation(self, name: str, key: str, engine: str, what: str, replay: Dict[str, Any],
                   solver_s: float = 0.0):
         """A counterexample that HAS ALREADY BEEN REPLAYED against the real code."""
+        what = " ".join(str(what).split())[:600]
         if key in self.known:
             if key not in self.known_seen:
                 self.known_seen[key] = what
@@ -161,6 +162,12 @@ class Run:
             self.obligations.append(dict(name=name, verdict=KNOWN, engine=engine, key=key, what=what,
                                          solver_s=round(solver_s, 3)))
             return
+        for v in self.violations:
+            if v["key"] == key:   # same failure class already reported in this run
+                v["more"] = v.get("more", 0) + 1
+                self.obligations.append(dict(name=name, verdict=VIOLATED, engine=engine, key=key, what=what,
+                                             replay=v["replay"], duplicate_of=v["name"], solver_s=round(solver_s, 3)))
+                return
         n = len(self.violations)
         path = os.path.join(replay_dir(self.pid), "%s_%s_%d.json" % (self.pid, self.tier, n))
         with open(path, "w") as f:
